@@ -674,3 +674,185 @@ theorem seq_lists_wellformed {w : World} (r : C14.Reachable w) (n : Nat) : AbsWf
       · cases hin; exact ne rfl
 
 end Tromp.C14Ring
+
+namespace Tromp.C14Ring
+open Tromp Tromp.Ring World
+
+/-! ### fifth worked instance: moving a mock object (the implicit move constructor: `list(list&&)` member by member) -/
+
+/-- (new list object, old list object) for every list of the object. -/
+def movePairs (o o' : Nat) : List (Addr × Addr) :=
+  (List.range nFns).flatMap (fun f => [(Addr.act o' f, Addr.act o f), (Addr.sat o' f, Addr.sat o f)])
+
+theorem mem_movePairs {o o' : Nat} {p : Addr × Addr} (h : p ∈ movePairs o o') :
+    ∃ f, f < nFns ∧ (p = (Addr.act o' f, Addr.act o f) ∨ p = (Addr.sat o' f, Addr.sat o f)) := by
+  unfold movePairs at h
+  obtain ⟨f, hf, hp⟩ := List.mem_flatMap.mp h
+  exact ⟨f, List.mem_range.mp hf, by simpa using hp⟩
+
+theorem movePairs_fst (o o' : Nat) : (movePairs o o').map (·.1) = headsOfMock o' := by
+  simp [movePairs, headsOfMock, List.map_flatMap]
+
+theorem movePairs_snd (o o' : Nat) : (movePairs o o').map (·.2) = headsOfMock o := by
+  simp [movePairs, headsOfMock, List.map_flatMap]
+
+theorem movePairs_eq (o o' : Nat) : movePairs o o' =
+    [(Addr.act o' 0, Addr.act o 0), (Addr.sat o' 0, Addr.sat o 0), (Addr.act o' 1, Addr.act o 1), (Addr.sat o' 1, Addr.sat o 1),
+     (Addr.act o' 2, Addr.act o 2), (Addr.sat o' 2, Addr.sat o 2), (Addr.act o' 3, Addr.act o 3), (Addr.sat o' 3, Addr.sat o 3)] := by
+  simp [movePairs, nFns, List.range, List.range.loop]
+
+theorem find_movePairs_act (o o' f : Nat) (hf : f < nFns) :
+    (movePairs o o').find? (fun p => decide (p.1 = Addr.act o' f)) = some (Addr.act o' f, Addr.act o f) := by
+  have : f = 0 ∨ f = 1 ∨ f = 2 ∨ f = 3 := by unfold nFns at hf; omega
+  rw [movePairs_eq]
+  rcases this with rfl | rfl | rfl | rfl <;> simp
+
+theorem find_movePairs_sat (o o' f : Nat) (hf : f < nFns) :
+    (movePairs o o').find? (fun p => decide (p.1 = Addr.sat o' f)) = some (Addr.sat o' f, Addr.sat o f) := by
+  have : f = 0 ∨ f = 1 ∨ f = 2 ∨ f = 3 := by unfold nFns at hf; omega
+  rw [movePairs_eq]
+  rcases this with rfl | rfl | rfl | rfl <;> simp
+
+theorem find_movePairs_none (o o' : Nat) (x : Addr) (hx : x ∉ headsOfMock o') :
+    (movePairs o o').find? (fun p => decide (p.1 = x)) = none := by
+  rw [List.find?_eq_none]
+  intro p hp
+  simp only [decide_eq_true_eq]
+  intro e
+  exact hx (by rw [← movePairs_fst o o']; exact List.mem_map.mpr ⟨p, hp, e⟩)
+
+theorem moveMock_mocks (w : World) (o o' : Nat) (m : Mock) (hne : o' ≠ o) (k : Nat) :
+    (w.moveMock o o' m).mocks k =
+      if k = o then some { m with active := fun _ => [], saturated := fun _ => [] }
+      else if k = o' then some { m with alive := true } else w.mocks k := by
+  unfold World.moveMock setMock upd
+  by_cases e1 : k = o
+  · simp [e1]
+  · by_cases e2 : k = o' <;> simp [e1, e2]
+
+theorem head_fn_lt {w : World} {o f : Nat} {a : Addr} (hmem : a ∈ headsOf w) (ha : a = .act o f ∨ a = .sat o f) : f < nFns := by
+  unfold headsOf at hmem
+  obtain ⟨o3, _, hin3⟩ := List.mem_flatMap.mp hmem
+  cases hm3 : w.mocks o3 with
+  | none => rw [hm3] at hin3; simp at hin3
+  | some m3 =>
+    rw [hm3] at hin3
+    obtain ⟨f3, hf3, hor⟩ := mem_headsOfMock hin3
+    rcases ha with rfl | rfl <;> rcases hor with hor | hor <;> cases hor <;> exact hf3
+
+theorem mem_headsOfMock_of {o f : Nat} (hf : f < nFns) : Addr.act o f ∈ headsOfMock o ∧ Addr.sat o f ∈ headsOfMock o := by
+  unfold headsOfMock
+  exact ⟨List.mem_flatMap.mpr ⟨f, List.mem_range.mpr hf, by simp⟩, List.mem_flatMap.mpr ⟨f, List.mem_range.mpr hf, by simp⟩⟩
+
+/-- **moving a mock object, on the heap**: after `list(list&&)` for each of its lists, the heap represents the world after the
+    `move` step — the new object's lists hold the expectations in the same order, the old object's lists are empty. -/
+theorem move_heap (hp : Heap Addr) {w : World} (h : WF w) (R : Rep hp (ringOf w)) (o o' : Nat) (m : Mock)
+    (hm : w.mocks o = some m) (ho' : o' = w.nextO) :
+    Rep (run (ringOf w, hp) (moveAll (movePairs o o'))).2 (ringOf (w.moveMock o o' m)) := by
+  subst ho'
+  have ho : o < w.nextO := by
+    apply Decidable.byContradiction; intro hge
+    have := h.freshMock o (by omega); rw [hm] at this; cases this
+  have hne : w.nextO ≠ o := by omega
+  have hfresh : w.mocks w.nextO = none := h.freshMock w.nextO (Nat.le_refl _)
+  have hold : ∀ p ∈ movePairs o w.nextO, p.2 ∈ (ringOf w).heads := by
+    intro p hp'
+    obtain ⟨f, hf, hp⟩ := mem_movePairs hp'
+    show p.2 ∈ headsOf w
+    unfold headsOf
+    refine List.mem_flatMap.mpr ⟨o, List.mem_range.mpr ho, ?_⟩
+    rw [hm]
+    rcases hp with rfl | rfl
+    · exact (mem_headsOfMock_of hf).1
+    · exact (mem_headsOfMock_of hf).2
+  have hnewUnused : ∀ p ∈ movePairs o w.nextO, ¬ (ringOf w).used p.1 := by
+    intro p hp' hu
+    obtain ⟨f, hf, hp⟩ := mem_movePairs hp'
+    obtain ⟨hd, hhd, hy⟩ := hu
+    obtain ⟨o2, f2, m2, hm2, ha⟩ := mem_headsOf hhd
+    have ho2 : o2 ≠ w.nextO := by rintro rfl; rw [hfresh] at hm2; cases hm2
+    simp only [List.mem_cons] at hy
+    rcases hy with hy | hy
+    · rcases hp with rfl | rfl <;> rcases ha with rfl | rfl <;> simp at hy <;> exact ho2 hy.1.symm
+    · rcases ha with rfl | rfl <;> simp only [ringOf, listsOf, hm2, List.mem_map] at hy <;>
+        (obtain ⟨e, _, he⟩ := hy; rcases hp with rfl | rfl <;> cases he)
+  have c2 : ((movePairs o w.nextO).map (·.2)).Nodup := by rw [movePairs_snd]; exact headsOfMock_nodup o
+  have c4 : ((movePairs o w.nextO).map (·.1)).Nodup := by rw [movePairs_fst]; exact headsOfMock_nodup _
+  have c5 : ∀ p ∈ movePairs o w.nextO, ∀ q ∈ movePairs o w.nextO, p.1 ≠ q.2 := by
+    intro p hp' q hq'
+    obtain ⟨f, _, hp⟩ := mem_movePairs hp'
+    obtain ⟨g, _, hq⟩ := mem_movePairs hq'
+    rcases hp with rfl | rfl <;> rcases hq with rfl | rfl <;> simp <;> intro e <;> exact absurd e hne
+  obtain ⟨_, Rm⟩ := rep_moveAll R (movePairs o w.nextO) hold c2 hnewUnused c4
+  have hmk := moveMock_mocks w o w.nextO m hne
+  have hnext : (w.moveMock o w.nextO m).nextO = w.nextO + 1 := rfl
+  have hheads : ∀ y, y ∈ headsOf (w.moveMock o w.nextO m) ↔ y ∈ headsOf w ∨ y ∈ headsOfMock w.nextO := by
+    intro y
+    unfold headsOf
+    rw [hnext, List.range_succ, List.flatMap_append, List.mem_append]
+    simp only [List.flatMap_cons, List.flatMap_nil, List.append_nil]
+    have hself : (w.moveMock o w.nextO m).mocks w.nextO = some { m with alive := true } := by
+      rw [hmk]; simp [hne]
+    rw [hself]
+    refine or_congr ?_ Iff.rfl
+    simp only [List.mem_flatMap, List.mem_range]
+    constructor
+    · rintro ⟨k, hk, hy⟩
+      refine ⟨k, hk, ?_⟩
+      have hk' : k ≠ w.nextO := by omega
+      rw [hmk] at hy
+      by_cases e : k = o
+      · subst e; rw [hm]; simpa using hy
+      · simpa [e, hk'] using hy
+    · rintro ⟨k, hk, hy⟩
+      refine ⟨k, hk, ?_⟩
+      have hk' : k ≠ w.nextO := by omega
+      rw [hmk]
+      by_cases e : k = o
+      · subst e; rw [hm] at hy; simpa using hy
+      · simpa [e, hk'] using hy
+  refine rep_congr_mem Rm ?_ (headsOf_nodup _) ?_
+  · intro y
+    rw [run_moveAll_fst, movedAbs_heads _ _ hold, movePairs_fst]
+    exact hheads y
+  · intro hd hhd
+    rw [run_moveAll_fst] at hhd ⊢
+    rw [movedAbs_lists _ _ c2 c4 c5]
+    have hmem := (movedAbs_heads (ringOf w) (movePairs o w.nextO) hold hd).1 hhd
+    rw [movePairs_fst] at hmem
+    unfold movedLists
+    rcases hmem with hmem | hmem
+    · -- a list object that existed before: emptied if it belongs to `o`, untouched otherwise
+      change hd ∈ headsOf w at hmem
+      obtain ⟨o2, f2, m2, hm2, ha⟩ := mem_headsOf hmem
+      have hf2 : f2 < nFns := head_fn_lt hmem ha
+      have ho2 : o2 ≠ w.nextO := by rintro rfl; rw [hfresh] at hm2; cases hm2
+      have hnotnew : hd ∉ headsOfMock w.nextO := by
+        intro hin
+        obtain ⟨f3, _, h3⟩ := mem_headsOfMock hin
+        rcases ha with rfl | rfl <;> rcases h3 with h3 | h3 <;> cases h3 <;> exact ho2 rfl
+      rw [find_movePairs_none o w.nextO hd hnotnew]
+      simp only [movePairs_snd]
+      by_cases e : o2 = o
+      · subst e
+        have hin : hd ∈ headsOfMock o2 := by
+          rcases ha with rfl | rfl
+          · exact (mem_headsOfMock_of hf2).1
+          · exact (mem_headsOfMock_of hf2).2
+        simp only [hin, if_true]
+        rcases ha with rfl | rfl <;> simp [ringOf, listsOf, hmk]
+      · have hnotold : hd ∉ headsOfMock o := by
+          intro hin
+          obtain ⟨f3, _, h3⟩ := mem_headsOfMock hin
+          rcases ha with rfl | rfl <;> rcases h3 with h3 | h3 <;> cases h3 <;> exact e rfl
+        simp only [hnotold, if_false]
+        rcases ha with rfl | rfl <;> simp [ringOf, listsOf, hmk, e, ho2]
+    · -- a list object of the new mock object: it holds what the old one held
+      obtain ⟨f, hf, ha⟩ := mem_headsOfMock hmem
+      rcases ha with rfl | rfl
+      · rw [find_movePairs_act o w.nextO f hf]
+        simp [ringOf, listsOf, hmk, hne, hm]
+      · rw [find_movePairs_sat o w.nextO f hf]
+        simp [ringOf, listsOf, hmk, hne, hm]
+
+end Tromp.C14Ring
